@@ -20,13 +20,15 @@ pub fn check(tier: Tier) -> Check {
         Part::new("C03/long", json!({"huge": true, "pairs": tier == Tier::Thorough}), 0, tier.pick(50, 300)),
         // the stream object lives across connect() -> run(): bytes behind the CONNACK in the same read
         Part::new("C03/handover", json!({}), 0, 60),
+        // long bursts: many small packets without a pause (a yield after N items must come with a wakeup)
+        Part::new("C03/burst", json!({"max": tier.pick(1025, 16385)}), 0, 120),
         Part::new("C03/aligned", json!({"shifts": tier.pick(48, 80), "wide": tier.pick(1100, 2200), "all_cuts": tier == Tier::Thorough}), 0, tier.pick(50, 900)),
     ];
     Check {
         also_rel: true,
         property: "C03",
         level: "model_checking",
-        rule: "(S1) every 2- and 3-packet sequence over {PINGRESP, short PUBACK, SUBACK, inbound PUBLISH QoS 0/1 with a small payload} up to the stated total length x all 2^(n-1) compositions of the byte stream into reads x {all chunks immediately available, Pending between chunks}; (S1e) every 1-2-packet stream up to a small total length cut short after every prefix by end-of-stream / read error, under every composition of the prefix; (S2) PUBLISH packets of 126..131, 510..516, 1022..1028, 1534..1540, 2046..2052, 4096, 16383..16390 bytes (quick: 127..129, 511..514, 1023..1026, 1536, 2047..2050, 16384..16386; thorough also 70000; a 2097160-byte packet (four-byte remaining length) with every single cut (thorough: every pair of cuts) near the interesting offsets) preceded by 0-2 small packets x {every single cut, every pair of cuts within +-3 of packet boundaries and multiples of 512, every uniform chunk size 1..=40 and 511..513, 1023..1025} x both reader modes; (S3) a stream of seven packets (a lead-in PUBLISH whose size takes every value in a window of 48 (thorough: 80) consecutive sizes - and, for the deliveries in one read or in chunks of >= 255 bytes, in a window of 1100 (thorough: 2200) -, then PUBLISH packets of about 700, 200, 118, 20, 30 and 620 bytes), so that every later packet boundary - and with it the start of a fixed header and of a multi-byte remaining length - falls on every alignment against the 512-byte read step and the 1024-byte allocation, delivered in one read, under every single cut near packet boundaries and multiples of 256 (thorough: every single cut) and in uniform chunks of 1, 2, 3, 5, 7, 64, 255, 256, 257, 511, 512, 513, 1019, 1024 bytes, both reader modes; (S4) hand-over from connect() to run(): the read that carries the CONNACK also carries the first k bytes (every k near both ends, every 97th in between) of six following packet sequences, the rest arrives once run() is served; run in the overflow-checked and the wrapping-arithmetic build; oracle: reference framing at every quiescent point, no unread visible bytes at quiescence, no end-of-stream before the transport's, no zero-length read; non-trivial = a packet was split across reads".into(),
+        rule: "(S1) every 2- and 3-packet sequence over {PINGRESP, short PUBACK, SUBACK, inbound PUBLISH QoS 0/1 with a small payload} up to the stated total length x all 2^(n-1) compositions of the byte stream into reads x {all chunks immediately available, Pending between chunks}; (S1e) every 1-2-packet stream up to a small total length cut short after every prefix by end-of-stream / read error, under every composition of the prefix; (S2) PUBLISH packets of 126..131, 510..516, 1022..1028, 1534..1540, 2046..2052, 4096, 16383..16390 bytes (quick: 127..129, 511..514, 1023..1026, 1536, 2047..2050, 16384..16386; thorough also 70000; a 2097160-byte packet (four-byte remaining length) with every single cut (thorough: every pair of cuts) near the interesting offsets) preceded by 0-2 small packets x {every single cut, every pair of cuts within +-3 of packet boundaries and multiples of 512, every uniform chunk size 1..=40 and 511..513, 1023..1025} x both reader modes; (S3) a stream of seven packets (a lead-in PUBLISH whose size takes every value in a window of 48 (thorough: 80) consecutive sizes - and, for the deliveries in one read or in chunks of >= 255 bytes, in a window of 1100 (thorough: 2200) -, then PUBLISH packets of about 700, 200, 118, 20, 30 and 620 bytes), so that every later packet boundary - and with it the start of a fixed header and of a multi-byte remaining length - falls on every alignment against the 512-byte read step and the 1024-byte allocation, delivered in one read, under every single cut near packet boundaries and multiples of 256 (thorough: every single cut) and in uniform chunks of 1, 2, 3, 5, 7, 64, 255, 256, 257, 511, 512, 513, 1019, 1024 bytes, both reader modes; (S5) bursts of 33, 65, 129, 257, 1025 (thorough: up to 16385) small packets (QoS 0 to a stream, QoS 1 to a stream, mixed without a stream) in one read, in 512-byte reads and in one read per packet, all available at once, optionally followed by end-of-stream; (S4) hand-over from connect() to run(): the read that carries the CONNACK also carries the first k bytes (every k near both ends, every 97th in between) of six following packet sequences, the rest arrives once run() is served; run in the overflow-checked and the wrapping-arithmetic build; oracle: reference framing at every quiescent point, no unread visible bytes at quiescence, no end-of-stream before the transport's, no zero-length read; non-trivial = a packet was split across reads".into(),
         assumptions: vec!["packets are well-formed (malformed input is C04)".into()],
         parts,
     }
@@ -105,6 +107,48 @@ fn small_packets(sub_id: u32, op_pub: usize, op_sub: usize, sys: &Sys) -> Vec<SP
     v
 }
 
+/// N small packets back to back - in one read, in 512-byte reads, or in reads of one packet each that
+/// are all available at once -, optionally followed by end-of-stream: every one is handled, in order.
+fn burst(name: String, params: Value) -> Scenario {
+    let max = params["max"].as_u64().unwrap_or(1025) as usize;
+    Box::new(move |chz, ex| {
+        let ns: Vec<usize> = [33usize, 65, 129, 257, 1025, 4097, 16385].into_iter().filter(|n| *n <= max).collect();
+        let n = ns[chz.choose(ns.len())];
+        let kind = chz.choose(3);
+        let chunking = chz.choose(3);
+        let eof = chz.choose(2) == 1;
+        let mut sys = Sys::new("C03", &name, chz);
+        sys.params = params.clone();
+        let Some(sid) = setup(&mut sys) else {
+            return sys.report(ex, &[]);
+        };
+        let mut bytes = vec![];
+        let mut packets = vec![];
+        for i in 0..n {
+            let p = match kind {
+                0 => inbound(0, false, 0, &[sid], &format!("b{}", i)),
+                1 => inbound(1, false, (i % 60000) as u16 + 1, &[sid], &format!("b{}", i)),
+                _ => inbound(if i % 2 == 0 { 0 } else { 1 }, false, (i % 60000) as u16 + 1, &[], "x"),
+            };
+            bytes.extend(p.encode());
+            packets.push((bytes.len(), p));
+        }
+        let cuts: Vec<usize> = match chunking {
+            0 => vec![],
+            1 => (1..bytes.len()).step_by(512).skip(1).collect(),
+            _ => packets[..packets.len() - 1].iter().map(|(e, _)| *e).collect(),
+        };
+        deliver_cut(&mut sys, &bytes, &cuts, &packets, false);
+        if eof && !sys.dead {
+            sys.apply(Ev::Eof);
+        }
+        sys.finish();
+        sys.events = vec![format!("burst of {} packets (kind {}), chunking {}, eof {}", n, kind, chunking, eof)];
+        sys.m.hits.push("packet-split");
+        sys.report(ex, &["packet-split"]);
+    })
+}
+
 /// The read that brings the CONNACK (or the AUTH challenge) also brings the first k bytes of what
 /// follows; the rest arrives once run() is being served. Nothing may be lost at the hand-over.
 fn handover(name: String, params: Value) -> Scenario {
@@ -174,6 +218,9 @@ fn handover(name: String, params: Value) -> Scenario {
 pub fn scenario(name: &str, params: &Value) -> Scenario {
     let params = params.clone();
     let name = name.to_string();
+    if name == "C03/burst" {
+        return burst(name, params);
+    }
     if name == "C03/handover" {
         return handover(name, params);
     }
